@@ -567,6 +567,16 @@ Proof.
   - cbn [wf_prog forallb wf_stmt wf_rhs is_expr is_formula is_fac]. rewrite Hw. reflexivity.
 Qed.
 
+Theorem table_rows_preserved_thm mu x k fs rows s' :
+  wf_rhs (RTable fs rows) = true ->
+  parse_tok (fmt_prog false [SDefine mu x k (RTable fs rows)]) = Some [s'] ->
+  s' = SDefine mu x k (RTable fs rows).
+Proof.
+  intros Hw H. rewrite fmt_parse_thm in H.
+  - injection H as <-. reflexivity.
+  - cbn [wf_prog forallb wf_stmt]. rewrite Hw. reflexivity.
+Qed.
+
 (* ------------------------------------------------------------------ formatter.rs agrees with the canonical printer outside the defect classes *)
 Lemma nth_seq_id {A} (pan : A) (l : list A) :
   flat_map (fun c => [nth c l pan]) (seq 0 (List.length l)) = l.
@@ -638,6 +648,11 @@ Proof.
   - (* rec *) apply orb_false_iff in Hc as [_ Hc]. apply existsb_false_Forall in Hc.
     cbn [fmt]. f_equal. f_equal. f_equal. apply map_ext_Forall.
     rewrite Forall_forall in *. intros b Hin. rewrite (H _ Hin (Hc _ Hin)). reflexivity.
+  - (* map *) apply orb_false_iff in Hc as [_ Hc]. apply existsb_false_Forall in Hc.
+    cbn [fmt]. destruct ms as [|m0 ms']; [reflexivity|]. f_equal. f_equal. f_equal. apply map_ext_Forall.
+    rewrite Forall_forall in *. intros mp Hin. specialize (Hc _ Hin). apply orb_false_iff in Hc as [Hk Hv].
+    destruct (H _ Hin) as [H1 H2]. rewrite (H1 Hk), (H2 Hv). reflexivity.
+  - (* tuple-struct *) apply orb_false_iff in Hc as [_ Hc]. cbn [fmt]. rewrite IHe by exact Hc. reflexivity.
   - (* call *) apply orb_false_iff in Hc as [Hany Hc]. apply existsb_false_Forall in Hc.
     assert (Hn : Forall (fun a => fst a = None) args).
     { unfold c_any, model_classes in Hany. cbn in Hany. rewrite orb_false_r in Hany.
@@ -662,17 +677,63 @@ Proof.
   eapply Forall_impl; [|exact H]. intros x Hx. apply fmt_agree, Hx.
 Qed.
 
+Lemma Forall_concat_in {A} (P : A -> Prop) (ls : list (list A)) l : Forall P (List.concat ls) -> In l ls -> Forall P l.
+Proof.
+  induction ls as [|x ls IH]; intros H Hin; [contradiction|]. cbn [List.concat] in H. apply Forall_app in H as [H1 H2].
+  destruct Hin as [->|Hin]; [exact H1|apply IH; assumption].
+Qed.
+
+Definition clean (e : ex) : Prop := exists_ex c_any e = false.
+
+Lemma fmt_header_agree fn args : fmt true (ECall fn (map arg_ex args)) = fmt false (ECall fn (map arg_ex args)).
+Proof.
+  cbn [fmt]. f_equal. f_equal. f_equal. f_equal. rewrite !map_map. apply map_ext. intros [x k]. reflexivity.
+Qed.
+
+Lemma fmt_rhs_agree r : Forall clean (rhs_exprs r) -> fmt_rhs true r = fmt_rhs false r.
+Proof.
+  intros H. destruct r as [e|fs rows|src arms|mat e qs]; cbn [rhs_exprs fmt_rhs] in *.
+  - inversion H; subst. apply fmt_agree. assumption.
+  - f_equal. f_equal. f_equal. f_equal. f_equal. apply flat_map_ext_Forall. rewrite Forall_forall. intros row Hin.
+    unfold fmt_row. f_equal. f_equal. f_equal. apply map_ext_Forall.
+    pose proof (Forall_concat_in _ _ _ H Hin) as Hr. eapply Forall_impl; [|exact Hr]. intros c Hc. apply fmt_agree, Hc.
+  - inversion H as [|? ? Hs Ha]; subst. rewrite (fmt_agree src Hs). f_equal. f_equal. f_equal. f_equal. f_equal. f_equal.
+    apply map_ext_Forall. rewrite Forall_forall. intros a Hin.
+    assert (Hall : Forall clean (marm_exprs a)).
+    { rewrite Forall_forall in *. intros x Hx. apply Ha. apply in_flat_map. exists a. split; assumption. }
+    destruct a as [[[last p] g] e]. unfold marm_exprs in Hall. cbn [fst snd] in Hall. unfold fmt_marm.
+    destruct g as [g|].
+    + inversion Hall as [|? ? Hg Hall']; subst. inversion Hall' as [|? ? He _]; subst.
+      rewrite (fmt_agree g Hg), (fmt_agree e He). reflexivity.
+    + inversion Hall as [|? ? He _]; subst. rewrite (fmt_agree e He). reflexivity.
+  - inversion H as [|? ? He Hq]; subst. rewrite (fmt_agree e He).
+    assert (map (fmt_qual true) qs = map (fmt_qual false) qs) as ->; [|reflexivity].
+    apply map_ext_Forall. rewrite Forall_forall in *. intros q Hin.
+    assert (Hqe : clean (qual_expr q)) by (apply Hq, in_map, Hin).
+    destruct q as [p e'|x k e'|e']; cbn [qual_expr fmt_qual] in *; rewrite (fmt_agree _ Hqe); reflexivity.
+Qed.
+
+Lemma clean_of l : existsb (exists_ex c_any) l = false -> Forall clean l.
+Proof. intros H. apply existsb_false_Forall in H. exact H. Qed.
+
 Theorem holds_thm p : defect_free p = true -> fmt_prog true p = fmt_prog false p.
 Proof.
   unfold defect_free, exists_prog. intros H. apply negb_true_iff in H. apply existsb_false_Forall in H.
   unfold fmt_prog. apply flat_map_ext_Forall. eapply Forall_impl; [|exact H].
-  intros s Hs. f_equal. destruct s as [mu x k e|x subs e|x subs a e|e]; cbn [stmt_exprs existsb fmt_stmt] in *.
-  - rewrite orb_false_r in Hs. rewrite fmt_agree by exact Hs. reflexivity.
-  - rewrite existsb_app in Hs. apply orb_false_iff in Hs as [H1 H2]. cbn [existsb] in H2. rewrite orb_false_r in H2.
-    rewrite fmt_subs_agree, fmt_agree by assumption. reflexivity.
-  - rewrite existsb_app in Hs. apply orb_false_iff in Hs as [H1 H2]. cbn [existsb] in H2. rewrite orb_false_r in H2.
-    rewrite fmt_subs_agree, fmt_agree by assumption. reflexivity.
-  - rewrite orb_false_r in Hs. apply fmt_agree, Hs.
+  intros s Hs. f_equal. destruct s as [mu x k e|x subs e|x subs a e|e|c|nm vs|fn args out arms]; cbn [stmt_exprs fmt_stmt] in *.
+  - rewrite fmt_rhs_agree by (apply clean_of, Hs). reflexivity.
+  - rewrite existsb_app in Hs. apply orb_false_iff in Hs as [H1 H2].
+    rewrite fmt_subs_agree by assumption. rewrite fmt_rhs_agree by (apply clean_of, H2). reflexivity.
+  - rewrite existsb_app in Hs. apply orb_false_iff in Hs as [H1 H2].
+    rewrite fmt_subs_agree by assumption. rewrite fmt_rhs_agree by (apply clean_of, H2). reflexivity.
+  - apply fmt_rhs_agree, clean_of, Hs.
+  - reflexivity.
+  - reflexivity.
+  - rewrite fmt_header_agree.
+    assert (map (fmt_farm true) arms = map (fmt_farm false) arms) as ->; [|reflexivity].
+    apply map_ext_Forall. apply clean_of in Hs. rewrite Forall_forall in *. intros a Hin.
+    assert (Ha : clean (snd a)) by (apply Hs, in_map, Hin).
+    destruct a as [[last pp] e]. unfold fmt_farm. cbn [snd] in Ha. rewrite (fmt_agree e Ha). reflexivity.
 Qed.
 
 Corollary holds_roundtrip p : wf_prog p = true -> defect_free p = true -> parse_tok (fmt_prog true p) = Some p.
@@ -760,15 +821,10 @@ Definition in_vocab (s : sym) : bool := match s with SOther _ | SPanic => false 
 
 Lemma sym_text_inj a b : in_vocab a = true -> in_vocab b = true -> sym_text a = sym_text b -> a = b.
 Proof.
-  destruct a as [| | | | | | | | | | | | | | | | |oa|aa|sa|]; try discriminate;
-  destruct b as [| | | | | | | | | | | | | | | | |ob|ab|sb|]; try discriminate; intros _ _;
-  try reflexivity; try (intros; discriminate);
-  try (destruct oa; intros; discriminate); try (destruct ob; intros; discriminate);
-  try (destruct aa; intros; discriminate); try (destruct ab; intros; discriminate).
-  - destruct oa; destruct ob; intros H; try reflexivity; discriminate H.
-  - destruct oa; destruct ab; intros H; discriminate H.
-  - destruct aa; destruct ob; intros H; discriminate H.
-  - destruct aa; destruct ab; intros H; try reflexivity; discriminate H.
+  intros Ha Hb H.
+  destruct a; try discriminate Ha; destruct b; try discriminate Hb; try reflexivity; try discriminate H;
+    repeat match goal with o : binop |- _ => destruct o | x : aop |- _ => destruct x end;
+    try reflexivity; discriminate H.
 Qed.
 
 (* ------------------------------------------------------------------ judge soundness *)
